@@ -327,7 +327,7 @@ func vShorthandsVsLonghands() (int, []string) {
 		"border: thin solid red", "border-left: medium dashed blue", "margin: auto 1px", "padding: 1em 2ex 3px 4pt",
 		"text-decoration: underline dotted", "word-wrap: break-word", "page-break-before: always", "page-break-inside: avoid",
 		"list-style: none inside", "outline: thick double red", "border-radius: 1px 2em / 3pt", "column-rule: thin dotted red",
-		"font-variant: small-caps", "font-style: oblique", "text-align: justify-all",
+		"font-variant: small-caps", "font-style: oblique", "text-align: justify-all", "list-style-type: square",
 	} {
 		n++
 		lower, upper := vDeclared(text), vDeclared(strings.ToUpper(text))
@@ -341,7 +341,7 @@ func vShorthandsVsLonghands() (int, []string) {
 	return n, fails
 }
 
-//@ bounded vShorthandsVsLonghands 8 shorthands x every subset and order of their components x 3 spellings, 192 one- to three-layer background shorthands, border-radius with 1-4 horizontal and 0-4 vertical radii and three four-sides shorthands with 1-4 values, against the equivalent longhand declarations; 26 declarations in upper case against their lower-case spelling
+//@ bounded vShorthandsVsLonghands 8 shorthands x every subset and order of their components x 3 spellings, 192 one- to three-layer background shorthands, border-radius with 1-4 horizontal and 0-4 vertical radii and three four-sides shorthands with 1-4 values, against the equivalent longhand declarations; 27 declarations in upper case against their lower-case spelling
 //@   props C08
 
 // border-radius: the index reads of the two radius lists are safe (each list holds exactly four values
